@@ -166,7 +166,27 @@ pub fn dump_snapshot<S: GraphSnapshot>(
         }
     }
 
+    // the (estimated) counts the statistics interface answers with: total, per label seen, per relationship type seen
+    let mut cnt = Vec::new();
+    if let Some(c) = guarded(&mut errs, "node_count".into(), || snap.node_count(None)) { cnt.push(json!(["n", "*", c])); }
+    if let Some(c) = guarded(&mut errs, "edge_count".into(), || snap.edge_count(None)) { cnt.push(json!(["e", "*", c])); }
+    for &r in &rel_ids {
+        let name = rel_name(&mut errs, r);
+        if let Some(c) = guarded(&mut errs, format!("edge_count:{r}"), || snap.edge_count(Some(r))) { cnt.push(json!(["e", name, c])); }
+    }
+    let mut label_ids: BTreeSet<u32> = BTreeSet::new();
+    for &n in &nodes {
+        if let Some(Some(ls)) = guarded(&mut errs, format!("labels2:{n}"), || snap.resolve_node_labels(n)) {
+            for l in ls { if l != u32::MAX { label_ids.insert(l); } }
+        }
+    }
+    for &l in &label_ids {
+        let name = guarded(&mut errs, format!("label_name2:{l}"), || snap.resolve_label_name(l)).flatten().unwrap_or_else(|| format!("#{l}"));
+        if let Some(c) = guarded(&mut errs, format!("node_count:{l}"), || snap.node_count(Some(l))) { cnt.push(json!(["n", name, c])); }
+    }
+
     json!({
+        "cnt": cnt,
         "nodes": nodes.iter().map(|n| json!([n])).collect::<Vec<_>>(),
         "ext": ext, "e2i": e2i, "lab": lab, "np1": np1, "npm": npm,
         "out": out, "outt": outt, "inn": inn, "innt": innt, "ep1": ep1, "epm": epm,
